@@ -2,7 +2,7 @@
 import z3
 
 from . import theory as T
-from . import types as TY
+from . import tys as TY
 from .sv import SV, NONE, OutOfSubset, mk_int, mk_bool, mk_real, mk_str, mk_bytes, BuiltinRef
 from .interp import as_int_term, const_int
 
